@@ -105,7 +105,7 @@ m = {
  ],
  "checks": checks,
  "not_applicable": [{"property_id": p, "reason": "not claimed yet: its runtime monitor is still under construction in this build session (design in DESIGN.md section 2/%s); the technique applies" % p} for p in sorted(P) if p not in CLAIMED],
- "notes": "Workloads were extended after three rounds of independently seeded breaking changes (DESIGN.md section 7, seeded/RESULTS.md): operands with a history (forward chains), sizes around every power of two up to 4097 and tensors up to 131072 elements, shapes that collide under ad-hoc cache keys, state left by rejected calls, component objects reused across shapes and calls, configs and argument slices overwritten after the call, endurance runs of 70000 calls; each check's evidence file states its rule and bounds in coverage.rule. All checks are runtime monitors over executions of the real code rebuilt from /repo's working tree (go build -tags verif). Exit 0 held / 1 VIOLATION / 2 inconclusive. Known findings: /verif/KNOWN_FINDINGS.txt. Seeded breaking changes used to validate the monitors: /verif/seeded/.",
+ "notes": "Workloads were extended after fourteen rounds of independently seeded breaking changes (about 540 kept changes; DESIGN.md section 7, seeded/RESULTS.md) and a mechanical mutation sweep of the library sources (tools/mutsweep.py): operand provenances, child processes that differ in GOMAXPROCS, CPU-time bounds for unbounded work, operands with a history (forward chains), sizes around every power of two up to 4097 and tensors up to 131072 elements, shapes that collide under ad-hoc cache keys, state left by rejected calls, component objects reused across shapes and calls, configs and argument slices overwritten after the call, endurance runs of 70000 calls; each check's evidence file states its rule and bounds in coverage.rule. All checks are runtime monitors over executions of the real code rebuilt from /repo's working tree (go build -tags verif). Exit 0 held / 1 VIOLATION / 2 inconclusive. Known findings: /verif/KNOWN_FINDINGS.txt. Seeded breaking changes used to validate the monitors: /verif/seeded/.",
 }
 json.dump(m, open("/verif/MANIFEST.json", "w"), indent=1)
 print("claimed:", [c["property_id"] for c in checks])
